@@ -407,7 +407,7 @@ COUNT_PRESERVING = {"brace_same_line", "comma_space", "double_space", "extra_tab
                     "spaces_indent", "tab_in_expr", "trailing_space", "upper_ident", "stray_eol_preproc"}
 
 
-def gen_violating(rng, name, content):
+def gen_violating(rng, name, content, force_op=None):
     """One seeded edit operator applied to a conforming file. Returns (content, operator)."""
     lines = content.split("\n")
     body_idx = [i for i, ln in enumerate(lines) if i > 11 and ln.startswith("\t") and ln.strip()]
@@ -421,12 +421,12 @@ def gen_violating(rng, name, content):
            "stray_eol_preproc", "stray_eol_preproc"]
     # violations at extreme positions: as late as possible in the longest function / in the file, after a long preamble
     ops += ["comment_in_func_late", "decl_late", "late_include", "long_preamble", "comment_in_func_late", "upper_decl", "upper_global",
-            "comment_run"]
+            "comment_run", "label_body", "label_line", "label_last", "control_last"]
     if name.endswith(".h"):
         # include-guard mutations (4.14)
         ops += ["guard_no_define", "guard_no_define", "guard_wrong_symbol", "guard_lower", "guard_doubled", "decl_before_guard",
                 "decl_after_endif", "no_guard", "guard_define_other"]
-    op = ops[rng.randrange(len(ops))]
+    op = force_op or ops[rng.randrange(len(ops))]
     pre_idx = [i for i, ln in enumerate(lines) if i > 11 and ln.lstrip().startswith("#")]
     if op.startswith("guard_") or op in ("decl_before_guard", "decl_after_endif", "no_guard"):
         gi = next((i for i, ln in enumerate(lines) if ln.startswith("#ifndef ")), None)
@@ -502,6 +502,32 @@ def gen_violating(rng, name, content):
         lines[j:j] = [f"// filler {k}" for k in range(n)]
         # between a declaration and its brace the declaration statement absorbs part of the run: the count is only known elsewhere
         return "\n".join(lines), (f"commentrun_brace{n}" if before_brace else f"comment_run{n}")
+    if op in ("label_last", "control_last"):
+        # a brace-less control statement as the very last statement of a function (its body a labelled statement, or a plain one)
+        ends = [j for j, ln in enumerate(lines) if ln == "}" and j > 13]
+        if ends:
+            j = ends[rng.randrange(len(ends))]
+            kw = rng.choice(["if", "while"])
+            body = rng.choice(["done: return ;", "stop : g_x++;", "again: ft_x(1);"]) if op == "label_last" else rng.choice(["g_x++;", "return ;", ";"])
+            lines[j:j] = [f"\t{kw} (g_x > 0)", f"\t\t{body}"]
+        return "\n".join(lines), op
+    if op in ("label_body", "label_line"):
+        import re
+        cand = []
+        for j in range(13, len(lines) - 1):
+            m = re.match(r"^(\t+)(if|while|else if) \(", lines[j])
+            if m and not lines[j + 1].strip() in ("{",) and lines[j + 1].startswith(m.group(1) + "\t") and lines[j + 1].rstrip().endswith(";") \
+                    and not lines[j].rstrip().endswith("&&") and lines[j].count("(") == lines[j].count(")"):
+                cand.append(j + 1)
+        if cand:
+            j = cand[rng.randrange(len(cand))]
+            ind = lines[j][:len(lines[j]) - len(lines[j].lstrip("\t"))]
+            body = lines[j].lstrip("\t")
+            if op == "label_body":
+                lines[j] = f"{ind}{rng.choice(['done', 'again', 'stop'])}{rng.choice([':', ' :'])} {body}"      # the whole body is one labelled statement
+            else:
+                lines[j:j] = [f"{rng.choice(['done', 'out'])}:"]                                       # a label on its own line before the body
+        return "\n".join(lines), op
     if op == "late_include":
         lines += ["#include <string.h>", ""] if lines and lines[-1] == "" else ["", "#include <string.h>"]
         return "\n".join(lines), op
